@@ -465,3 +465,83 @@ func orphanReplayRace(w *core.WorkerCtx, report []string) {
 	w.R.Count("replay_race_rounds", rounds)
 	w.R.Count("replay_race_rounds_in_which_the_replayed_orphan_lost", lost)
 }
+
+// c09DroppedThenTampered: a node has verified a vertex, admitted it as a tentative tip and then dropped it (it overdraws).
+// Altered copies of that very vertex - the genuine hash and signatures over another amount, receiver, data, parent -
+// are offered afterwards, and the genuine one once more. Having seen the original verify must not help a copy: every
+// vertex of the ledger recomputes from its own contents.
+func c09DroppedThenTampered(w *core.WorkerCtx, report []string) {
+	rng := core.Rand(w.Seed, "droppedtampered", w.Batch)
+	desc := fmt.Sprintf("altered copies of a vertex the node verified and dropped earlier seed=%d batch=%d", w.Seed, w.Batch)
+	w.Mark("%s", desc)
+	world := ledger.NewWorld(rng, w.R, report, allSnapOracles, desc)
+	defer world.Close()
+	if _, err := ledger.Setup(world, ledger.Profile{Nodes: 1, Users: 4, SupplyClass: 0, Delivery: "lockstep"}); err != nil {
+		w.R.Inconc("setup failed: " + err.Error())
+		return
+	}
+	n := world.Nodes[0]
+	u := world.Users
+	f := world.NewTrx(u[0], u[1].Addr, spice.Melange{Currency: 100}, nil)
+	world.Propose(n, &f, "fund")
+	for round := 0; round < w.Pick(6, 30); round++ {
+		s := n.Prev
+		var tip ledger.H
+		var wgt uint64
+		for h := range s.Leaves {
+			if v, ok := s.Vertex(h); ok && v.Weight >= wgt {
+				tip, wgt = h, v.Weight
+			}
+		}
+		if wgt == 0 {
+			break
+		}
+		// the original overdraws (500 out of 100) and carries data in every second round
+		var data []byte
+		if round%2 == 1 {
+			data = []byte("contract that overdraws")
+		}
+		ot := world.NewTrx(u[1], u[2].Addr, spice.Melange{Currency: 500}, data)
+		orig := ledger.ForgeVertex(world.Sealers[round%2], ot, tip, tip, wgt+1, world.Now())
+		if err := world.Deliver(n, &orig, "overdrawing original (tentative)"); err != nil {
+			continue
+		}
+		for k := 0; k < 2; k++ {
+			m := world.NewTrx(u[0], u[3].Addr, spice.Melange{}, []byte("judge the tip"))
+			world.Propose(n, &m, "judge the tip")
+		}
+		if _, still := n.Prev.Vertex(orig.Hash); still {
+			world.Logf("round %d: the overdrawing original was not dropped", round)
+			continue
+		}
+		// altered copies under the genuine hash and signatures
+		s = n.Prev
+		for h := range s.Leaves {
+			if v, ok := s.Vertex(h); ok {
+				tip, wgt = h, v.Weight
+			}
+		}
+		alter := []func(v *accountant.Vertex){
+			func(v *accountant.Vertex) { v.Transaction.Spice.Currency = 50 },
+			func(v *accountant.Vertex) { v.Transaction.ReceiverAddress = u[3].Addr; v.Transaction.Spice.Currency = 5 },
+			func(v *accountant.Vertex) { v.Transaction.Spice = spice.Melange{}; v.Transaction.Data = []byte("other data") },
+			func(v *accountant.Vertex) { v.Transaction.Spice.Currency = 50; v.LeftParentHash, v.RightParentHash = tip, tip; v.Weight = wgt + 1 },
+		}
+		for ai, a := range alter {
+			c := *ledger.CloneVertex(&orig)
+			a(&c)
+			err := world.Deliver(n, &c, fmt.Sprintf("altered copy %d of the dropped original", ai))
+			for _, p := range report {
+				world.EvalFor(p, 1)
+				world.NontrivFor(p, fmt.Sprintf("dropped-then-altered/variant%d/refused=%v", ai, err != nil))
+			}
+			if err == nil {
+				world.Violate("C09", "not-self-authenticating/accepted-after-the-original-was-dropped", fmt.Sprintf("round %d: an altered copy (variant %d) of a vertex the node had verified and dropped was admitted under the original's hash and signatures", round, ai))
+				world.Violate("C04", "accepted/dropped-original/variant"+fmt.Sprint(ai), fmt.Sprintf("round %d: an altered copy (variant %d) of a vertex the node had verified and dropped was admitted", round, ai))
+			}
+			m := world.NewTrx(u[0], u[3].Addr, spice.Melange{}, []byte("judge the tip"))
+			world.Propose(n, &m, "judge the tip")
+		}
+	}
+	w.R.Count("dropped_then_altered_scenarios", 1)
+}
